@@ -5,6 +5,8 @@ package main
 
 import (
 	"fmt"
+	"os"
+	"time"
 	"go/types"
 	"math/big"
 	"strings"
@@ -452,6 +454,10 @@ func (p *Path) ensureInit(fr *frame, pkg *ssa.Package) {
 		return
 	}
 	th := fr.th
+	if os.Getenv("VERIF_INITTIME") != "" {
+		t0 := time.Now()
+		defer func() { fmt.Fprintf(os.Stderr, "init %s: %v\n", pkg.Pkg.Path(), time.Since(t0)) }()
+	}
 	func() {
 		defer func() {
 			if r := recover(); r != nil {
